@@ -12,7 +12,7 @@ BASIC = {
 }
 LINKS = {
     'f': 'f', 'd': 'd', 'd/x': 'f', 'd/s': 'd', 'd/s/y': 'f', 'ld': ('l', 'd'), 'lf': ('l', 'f'), 'dang': ('l', 'nowhere'), 'd/up': ('l', '..'),
-    '.hd': 'd', '.hd/z': 'f', 'lh': ('l', '.hd'), 'd/s/lf2': ('l', '../x'),
+    '.hd': 'd', '.hd/z': 'f', 'lh': ('l', '.hd'), 'd/s/lf2': ('l', '../x'), 'd/s/t': 'd', 'd/s/t/y2': 'f',
 }
 NESTED = {'a': 'd', 'a/a': 'd', 'a/a/a': 'f', 'a/b': 'f', 'b': 'd', 'b/a': 'f', 'b/b': 'd', 'b/b/b': 'f', 'a/.a': 'f', '.a': 'd', '.a/a': 'f'}
 CASE = {'Sub': 'd', 'Sub/A.txt': 'f', 'Sub/b.txt': 'f', 'sub': 'd', 'sub/a.txt': 'f', 'X': 'f', 'x': 'f', 'Sub/D': 'd', 'Sub/D/q': 'f'}
@@ -86,6 +86,27 @@ class Tree:
 
     def __exit__(self, *a):
         shutil.rmtree(self.parent, ignore_errors=True)
+
+    def entries_through_links(self, depth=5):
+        """additionally the paths that go through symlinked directories (each real directory at most once per path: no cycles)"""
+        out = []
+
+        def walk(rel, seen, d):
+            full = os.path.join(self.root, rel) if rel else self.root
+            real = os.path.realpath(full)
+            if real in seen or d > depth:
+                return
+            try:
+                names = sorted(os.listdir(full))
+            except OSError:
+                return
+            for n in names:
+                p = (rel + '/' if rel else '') + n
+                out.append(p)
+                if os.path.isdir(os.path.join(self.root, p)):
+                    walk(p, seen | {real}, d + 1)
+        walk('', frozenset(), 0)
+        return sorted(set(out))
 
     def entries(self):
         """every entry of the tree (relative paths) found by a plain lstat walk that does not follow links"""
